@@ -218,4 +218,52 @@ theorem serverHandshake_wellformed (method target version : List UInt8) (ls : Li
   rw [hh]
   simp only [getHeader_table, hasHeader_table, serverResponse]
 
+/-! ### the request `WebSocket::connect` writes is such a request -/
+
+/-- the header lines of the request `connect` writes -/
+def clientLines (host port key : List UInt8) : List ReqLine :=
+  [⟨[72, 111, 115, 116], [32], host ++ [58] ++ port, []⟩,
+   ⟨strUpgrade, [32], strWebsocket, []⟩,
+   ⟨strConnection, [32], strUpgrade, []⟩,
+   ⟨[83, 101, 99, 45, 87, 101, 98, 83, 111, 99, 107, 101, 116, 45, 75, 101, 121], [32], key, []⟩,
+   ⟨[83, 101, 99, 45, 87, 101, 98, 83, 111, 99, 107, 101, 116, 45, 80, 114, 111, 116, 111, 99, 111, 108], [32], [99, 104, 97, 116], []⟩,
+   ⟨[83, 101, 99, 45, 87, 101, 98, 83, 111, 99, 107, 101, 116, 45, 86, 101, 114, 115, 105, 111, 110], [32], [49, 51], []⟩,
+   ⟨[80, 114, 97, 103, 109, 97], [32], [110, 111, 45, 99, 97, 99, 104, 101], []⟩]
+
+theorem clientRequest_eq (path host port key : List UInt8) :
+    clientRequest path host port key = upgradeRequest [71, 69, 84] path [72, 84, 84, 80, 47, 49, 46, 49, 13] (clientLines host port key) [] := by
+  simp [clientRequest, upgradeRequest, clientLines, headerBytes, ReqLine.bytes, ReqLine.body, reqGet, reqHost, reqColon, reqKey, reqTail,
+    strUpgrade, strWebsocket, strConnection]
+
+theorem clientLines_last (host port key : List UInt8) :
+    lastField (clientLines host port key) strUpgrade = some strWebsocket ∧
+    lastField (clientLines host port key) strConnection = some strUpgrade ∧
+    lastField (clientLines host port key) strKey = some key ∧
+    (lastField (clientLines host port key) strProtocol).isSome = true := by
+  refine ⟨?_, ?_, ?_, ?_⟩ <;>
+  simp [lastField, clientLines, ReqLine.field, List.find?, capName, strUpgrade, strWebsocket, strConnection, strKey, strProtocol, isAlnum, toUpperB, toLowerB]
+
+/-- a value the request can carry: non-empty, no line feed, no blank at either end -/
+def ValueOk (v : List UInt8) : Prop :=
+  v ≠ [] ∧ (∀ x ∈ v, x ≠ 10) ∧ (∀ x, v.head? = some x → isSp x = false) ∧ (∀ x, v.getLast? = some x → isSp x = false)
+
+theorem wf_of (n v : List UInt8) (hn : ∀ x ∈ n, x ≠ 58 ∧ isSp x = false) (hv : ValueOk v) : (⟨n, [32], v, []⟩ : ReqLine).WF :=
+  ⟨hn, by intro x hx; simp at hx; subst hx; decide, by simp, hv.1, hv.2.1, hv.2.2.1, hv.2.2.2⟩
+
+theorem valueOk_const (v : List UInt8) (h : v ≠ [] ∧ (∀ x ∈ v, x ≠ 10) ∧ (∀ x ∈ v, isSp x = false)) : ValueOk v :=
+  ⟨h.1, h.2.1, fun x hx => h.2.2 x (List.mem_of_mem_head? hx), fun x hx => h.2.2 x (List.mem_of_getLast? hx)⟩
+
+theorem clientLines_wf (host port key : List UInt8) (hh : ValueOk (host ++ [58] ++ port)) (hk : ValueOk key) :
+    ∀ l ∈ clientLines host port key, l.WF := by
+  intro l hl
+  simp only [clientLines, List.mem_cons, List.not_mem_nil, or_false] at hl
+  rcases hl with rfl | rfl | rfl | rfl | rfl | rfl | rfl
+  · exact wf_of _ _ (by decide) hh
+  · exact wf_of _ _ (by decide) (valueOk_const _ (by decide))
+  · exact wf_of _ _ (by decide) (valueOk_const _ (by decide))
+  · exact wf_of _ _ (by decide) hk
+  · exact wf_of _ _ (by decide) (valueOk_const _ (by decide))
+  · exact wf_of _ _ (by decide) (valueOk_const _ (by decide))
+  · exact wf_of _ _ (by decide) (valueOk_const _ (by decide))
+
 end AslProofs.WebSocketServerHs
